@@ -24,7 +24,7 @@ const xsd = "http://www.w3.org/2001/XMLSchema#"
 
 // mixEnv is what an operation runs against: a document loader and the shared
 // merklizer. The oracle uses (oracleLoader, sharedMz), the concurrent phase
-// (sharedLoader, sharedMz).
+// (sharedLoader, a second merklizer built from the same document).
 type mixEnv struct {
 	loader ld.DocumentLoader
 	mz     *merklize.Merklizer
@@ -161,6 +161,34 @@ func opHash(datatype string, value any) op {
 	}}
 }
 
+// opProofMz resolves the dotted path with the shared merklizer itself (ResolveDocPath uses the
+// merklizer's source document and loader) and also exercises its other read paths.
+func opProofMz(dotted string) op {
+	return op{kind: "proof-resolve", arg: "mz:" + dotted, run: func(e *mixEnv) string {
+		p, err := e.mz.ResolveDocPath(dotted)
+		if err != nil {
+			return "resolve-" + errClass(err)
+		}
+		obs := proofObs(e.mz, p)
+		if t, err := e.mz.JSONLDType(p); err != nil {
+			obs += ";type=" + errClass(err)
+		} else {
+			obs += ";type=" + t
+		}
+		if rv, err := e.mz.RawValue(p); err != nil {
+			obs += ";raw=" + errClass(err)
+		} else {
+			obs += fmt.Sprintf(";raw=%v", rv)
+		}
+		if _, err := e.mz.Entry(p); err != nil {
+			obs += ";entry=" + errClass(err)
+		} else {
+			obs += ";entry=ok"
+		}
+		return obs
+	}}
+}
+
 // altHasher is a second hasher (Poseidon over the message with a marker byte in front).  Ops
 // that configure it through merklize.Options run next to ops that use the package default, so a
 // code path that lets a per-call option leak into the package-level default shows up as a data
@@ -229,6 +257,7 @@ func buildPool(seed int64, sharedDoc testDoc, resolve func(dotted string) (merkl
 			add(opProof("doc:"+dotted, p))
 		}
 		add(opProofResolve(dotted))
+		add(opProofMz(dotted))
 	}
 	absent := [][]any{
 		{"https://www.w3.org/2018/credentials#credentialSubject", "https://example.com/absent#field"},
@@ -417,7 +446,15 @@ func runMix(cfg *config, out *output) error {
 		return err
 	}
 	merklize.SetDocumentLoader(senv.loader) // once, before any goroutine starts
-	sharedEnv := &mixEnv{loader: senv.loader, mz: sharedMz, mzDoc: []byte(sharedDoc.JSON)}
+	// the merklizer shared by the goroutines is a second one built from the same document and
+	// untouched until they start (the oracle used sharedMz), so that lazily initialised state
+	// inside a Merklizer is first written during the concurrent phase
+	concMz, err := merklize.MerklizeJSONLD(context.Background(), strings.NewReader(sharedDoc.JSON),
+		merklize.WithDocumentLoader(oenv.loader))
+	if err != nil {
+		return fmt.Errorf("shared merklizer (%s): %v", sharedDoc.Name, err)
+	}
+	sharedEnv := &mixEnv{loader: senv.loader, mz: concMz, mzDoc: []byte(sharedDoc.JSON)}
 
 	n, k := cfg.Goroutines, cfg.Ops
 	rngs := make([]*rand.Rand, n)
@@ -426,6 +463,12 @@ func runMix(cfg *config, out *output) error {
 	}
 	distinct := map[string]bool{}
 	var prevFetches int64
+	var mzOps []int // read-path operations on the shared merklizer
+	for _, i := range byKind["proof-resolve"] {
+		if strings.HasPrefix(pool[i].arg, "mz:") {
+			mzOps = append(mzOps, i)
+		}
+	}
 	for r := 0; r < rounds; r++ {
 		results := make([][]opResult, n)
 		start := make(chan struct{})
@@ -441,6 +484,10 @@ func runMix(cfg *config, out *output) error {
 				<-start
 				for i := 0; i < k; i++ {
 					idx := draw(rng, byKind)
+					if i == 0 && r == 0 && len(mzOps) > 0 {
+						// everybody starts on the untouched shared merklizer at the same moment
+						idx = mzOps[rng.Intn(len(mzOps))]
+					}
 					ts := time.Now()
 					obs, pan := safeRun(&pool[idx], sharedEnv)
 					mine = append(mine, opResult{op: idx, obs: obs, panic: pan, durUs: time.Since(ts).Microseconds()})
